@@ -176,9 +176,9 @@ def cheap(seeds, cap, workdir):
     return [s for s, n in zip(uniq, steps) if 0 < n <= cap]
 
 
-def peg_world(toks, maxtok, maxparen, seeds, budgets=False, expect=(), checked=False, later=None):
+def peg_world(toks, maxtok, maxparen, seeds, budgets=False, expect=(), checked=False, later=None, traced=False):
     g = load_grammar()
-    return {"grammar": g, "tokens": toks, "maxtok": maxtok, "maxparen": maxparen, "seeds": seeds, "budgets": budgets, "expect": list(expect), "checked": checked,
+    return {"grammar": g, "tokens": toks, "maxtok": maxtok, "maxparen": maxparen, "seeds": seeds, "budgets": budgets, "expect": list(expect), "checked": checked, "traced": traced,
             "later": list(range(1, len(toks) + 1)) if later is None else [toks.index(tok(t)) + 1 for t in later]}
 
 
